@@ -84,8 +84,27 @@ func eqArgsMerge(c *Ctx, a *flAgg) {
 	seg.Explore()
 	dst := strings.TrimPrefix(outAlloc.Name, "&") + ".Values"
 	cases := map[string]bool{}
+	otherField := false
+	defer func() {
+		if !otherField {
+			a.ok("EQ-merge-show", "Args.merge/other-field", "the merged list is built from Values and Elided only (no per-member rendering is carried over)", fn.Pos())
+		}
+	}()
+	outName := strings.TrimPrefix(outAlloc.Name, "&")
 	for _, p := range seg.Paths {
 		pos := pathPos(p, fn)
+		// the merged list carries nothing but Values and Elided: any other field
+		// (the source-annotated rendering Processed) describes one member only
+		for _, ev := range p.Events {
+			if ev.Kind != EvStore {
+				continue
+			}
+			as, _ := stripAddr(ev.Addr.String())
+			if strings.HasPrefix(as, outName+".") && !strings.HasPrefix(as, outName+".Values") && as != outName+".Elided" {
+				otherField = true
+				a.bad("EQ-merge-show", "Args.merge/other-field", "the merged argument list receives "+strings.TrimPrefix(as, outName+".")+" = "+ev.Val.String()+": a field other than Values/Elided describes one member only, yet it is what the renderers prefer to show", ev.Pos)
+			}
+		}
 		if p.Term == "return" {
 			// after the loop: returns the result object
 			if len(p.Results) == 1 && strings.HasSuffix(p.Results[0].String(), strings.TrimPrefix(outAlloc.Name, "&")) {
